@@ -195,7 +195,9 @@ pub(crate) trait ProtocolRequestBuilder {
 #[async_trait]
 impl ProtocolRequestBuilder for crate::Request {
     async fn into_protocol_request(mut self) -> crate::Result<HttpRequest> {
-        let body = if self.is_empty() == Some(false) {
+        // `is_empty()` is `None` for a body whose length is not known in advance
+        // (e.g. `Body::from_reader(reader, None)`): it may still have content
+        let body = if self.is_empty() != Some(true) {
             self.take_body().into_bytes().await?
         } else {
             vec![]
